@@ -24,14 +24,7 @@ func c18Client(w *world.LW, role string) {
 	b := w.Nodes[0].Book
 	switch role {
 	case "orphan": // child before parent: the child is parked, the parent admitted, the retry loop admits the child
-		snap := b.VerifSnapshot()
-		tip := snap.Leaves[0]
-		var wt uint64
-		for _, v := range snap.Vertices {
-			if v.Hash == tip {
-				wt = v.Weight
-			}
-		}
+		tip, wt := c08Tip[w].hash, c08Tip[w].weight // recorded by the set-up phase (no snapshot in the middle of concurrent admissions)
 		m1 := w.Craft(M, w.Tx("c18-m1", R, A, 1, 0), tip, tip, wt+1)
 		m2 := w.Craft(M, w.Tx("c18-m2", R, A, 1, 0), m1.Hash, m1.Hash, wt+2)
 		w.Deliver(ctx, 0, m2)
